@@ -158,7 +158,9 @@ def judge(c):
         return [("refused", r.kind)] if not r.refused else []
     try:
         procs = S.parse(r.text)
-    except S.B09SyntaxError:
+    except S.B09SyntaxError as e:
+        if "array size" in str(e):
+            return [("array-dimensions", f"the declaration cannot mean the requested size: {e}")]
         return []
     decls, uses = declarations(procs)
     v = []
